@@ -265,3 +265,34 @@ func VP_C06_RequestsAreJudgedOnTheirOwn() {
 	vpAssert("credential-less-request-discloses-no-list", !rec.disclosedList())
 	vpCover("end")
 }
+
+// VP_C06_ConcurrentLoginsGetTheirOwnVerdicts: two API logins at the same time, one with the
+// right and one with a wrong password, against the real agent; every schedule with switches at
+// blocking points plus one preemption at a channel operation: a session token is issued only to
+// the request that carried the right password.
+func VP_C06_ConcurrentLoginsGetTheirOwnVerdicts() {
+	_, st, _, _ := vpAgent(1, "")
+	f, err := NewWebSessionFactory(vpLifetime * time.Second)
+	if err != nil {
+		panic("setup")
+	}
+	pws := [2]string{"old", "bad"}
+	var recs [2]*vpRecorder
+	var bodies [2]*vpBody
+	for i := range recs {
+		recs[i] = vpNewRecorder()
+		bodies[i] = vpJSON(map[string]interface{}{"username": "u", "password": pws[i]})
+	}
+	vpSchedExploreFine(1)
+	done := make(chan bool, 2)
+	for i := 0; i < 2; i++ {
+		i := i
+		go func() { vpServe(handleWebAuthenticate, st, f, recs[i], vpReqWith(bodies[i])); done <- true }()
+	}
+	a := vpAwait(done)
+	b := vpAwait(done)
+	vpSchedExploreFine(0)
+	vpAssert("both-answered", a && b)
+	vpAssert("sched: token-only-for-the-request-with-the-right-password", recs[0].status == 200 && recs[1].status != 200 && recs[1].sessionOf() == "")
+	vpCover("end")
+}
